@@ -260,9 +260,10 @@ Proof.
       rewrite split_once_app by (apply digits_no_char; [exact (d_digits _ _ Sw)|reflexivity]).
       pose proof (digits_of_nonempty _ _ Sw) as Wne.
       rewrite (is_nil_false _ Wne). cbn [andb].
+      unfold int_part. rewrite (is_nil_false _ Wne).
       rewrite parse_uint_digits; [|exact Wne|exact (d_digits _ _ Sw)].
       rewrite (digits_of_val _ _ Sw). destruct (N.ltb_spec whole P128); [|lia]. cbn [bind].
-      rewrite (is_nil_false _ Fne).
+      unfold frac_part. rewrite (is_nil_false _ Fne).
       rewrite Fdig. cbn [negb]. rewrite Ftz, Flen. change (N.of_nat 0) with 0.
       rewrite N.sub_0_r, N.pow_0_r.
       rewrite parse_uint_digits by assumption. rewrite Fval.
